@@ -80,6 +80,8 @@ type c30xCase struct {
 // sharded LRU cache used by BlockChain) against the definition.
 func TestVerif_C30_exec(t *testing.T) {
 	mc.Run(t, "C30", func(r *mc.R) {
+		// frame-entry / shared-cache part first (zz_verif_C30_frames_test.go)
+		c30fFrames(r)
 		forks := mc.Pick(r, []string{"Frontier", "Amsterdam"}, progx.ForkNames)
 		maxItems := 2
 		secondAll := mc.Pick(r, false, true) // second item: every PUSHn, or only the sizes around the 8/16-bit fast paths
